@@ -44,7 +44,7 @@ def H(mod, name, profile="L", tier="quick", **kw):
 
 SPECS = {}
 # properties whose check has been run to completion on the unchanged tree and is claimed in MANIFEST.json
-READY = {"C01", "C02", "C03", "C04", "C05", "C07", "C08", "C09", "C10", "C11", "C15", "C17", "C18", "C19", "C20"}
+READY = {"C01", "C02", "C03", "C04", "C05", "C07", "C08", "C09", "C10", "C11", "C15", "C16", "C17", "C18", "C19", "C20"}
 
 # --------------------------------------------------------------------------------------------- C17
 SPECS["C17"] = dict(
@@ -361,6 +361,30 @@ SPECS["C08"] = dict(
         H("core2_h", "hp_payload_missing", stubbing=True, timeout=1200, mem_gb=20, symbolic="batch digest, node last_voted/high_qc", asserts="no vote, no store write, no commit; exactly one Synchronize(missing, author) and one Wait(missing, block)"),
         H("core2_h", "hp_payload_present", stubbing=True, timeout=1200, mem_gb=20, symbolic="batch digest, node last_voted/high_qc", asserts="block processed and voted when the voting rule allows"),
     ],
+)
+
+# --------------------------------------------------------------------------------------------- C16
+_C16 = [("c16_read_unknown", "none", "a key never written reads as nothing", True),
+        ("c16_read_other_key_unknown", "value", "a write to another key does not give this key a value", False),
+        ("c16_write_read_other_handle", "value", "a read through another handle returns the written value", False),
+        ("c16_overwrite", "2 values", "the latest write wins", False),
+        ("c16_keys_independent", "2 values", "keys do not interfere", False),
+        ("c16_queued_in_issue_order", "2 values", "two writes and a read queued from three handles before the store task runs are applied in issue order", False),
+        ("c16_notify_existing", "value", "notify_read on an existing key completes with its value", False),
+        ("c16_notify_pending", "none", "notify_read on a missing key stays pending while nothing is written", True)]
+SPECS["C16"] = dict(
+    level="model_checking",
+    technique="bounded symbolic execution of the real store command loop and handle functions (Kani/CBMC, SAT); the spawned loop is made callable by a per-run source lowering",
+    bounds="8 concrete command schedules of 1..3 commands over 1..3 cloned handles, keys concrete (1 byte), values symbolic (1 byte); the store task runs at the points the harness chooses (after each command, or after several queued ones)",
+    outside="PARTIAL CLAIM: the completion of a parked notify_read by a later write (no lost wake-up, several waiters, first write wins) - every schedule that processes a command after one answered with \"no value\" did not finish symbolic execution in 900 s (harnesses kept in store_h.rs); RocksDB itself (replaced by a 4-slot last-write-wins table: durability across restart, compaction, I/O errors); longer schedules; keys/values longer than 1 byte; the real tokio scheduler and channel (capacity 100; shim: FIFO of 4)",
+    trusted_base=COMMON_TB + [
+        "kani/shims/tokio: sequential FIFO mpsc, oneshot, TailFut",
+        "kani/shims/rocksdb: DB::open_default/put/get over one in-memory table",
+        "kani/overlay.py lower_spawned_loop: Store::verif_new generated from the text of Store::new (spawned block -> closure, `rx.recv().await` -> take a queued command or return)",
+        "kani/overlay.py deasync: write lowered; read/notify_read lowered to `prefix; TailFut(receiver, postfix)` (prefix runs at call time instead of first poll)",
+        "kani/shims/vwit: witness channel"],
+    assumptions=["the store task is scheduled only between handle calls (sequential model)"],
+    harnesses=[H("store_h", n, profile="S", timeout=900, mem_gb=16, symbolic=sym, asserts=a, need_cover=not nc) for n, sym, a, nc in _C16],
 )
 
 SPECS["DBG"] = dict(harnesses=[H("store_h", "dbg_store_min", profile="S", timeout=400, need_cover=False), H("config_h", "dbg_const_threshold", timeout=300, need_cover=False), H("core_h", "dbg_commit_one", timeout=200, need_cover=False, stubbing=True), H("core_h", "dbg_parent_one", timeout=200, need_cover=False, stubbing=True), H("core_h", "dbg_ser_de", timeout=120, need_cover=False, stubbing=True), H("core_h", "dbg_store_de", timeout=120, need_cover=False, stubbing=True)])
